@@ -28,6 +28,10 @@ def extract():
     return _extract.socks_table()
 
 
+import re as _re
+TLS_NAME = _re.compile(r'([A-Za-z0-9]([A-Za-z0-9-]{0,61}[A-Za-z0-9])?\.)*[A-Za-z]([A-Za-z0-9-]{0,61}[A-Za-z0-9])?\.?')
+
+
 def hostnames(rng):
     alpha = 'abcdefghijklmnopqrstuvwxyz0123456789.-'
     out = ['a', 'ab', 'example.com', 'www.torproject.org.', 'xn--bcher-kva.example', 'héllo.com', 'a' * 63 + '.com',
@@ -68,6 +72,9 @@ def gen_cases(rng, tier):
         p = rng.choice(ports)
         yield {'req': 'CONNECT', 'host': h, 'port': p, 'entry': 'socks-endpoint'}
         yield {'req': 'CONNECT', 'host': h, 'port': p, 'entry': 'client-endpoint'}
+        if TLS_NAME.fullmatch(h) and len(h) <= 253:
+            # tls=True needs a name a certificate could carry (labels of at most 63 letters, digits, hyphens); a final dot is legal
+            yield {'req': 'CONNECT', 'host': h, 'port': p, 'entry': 'socks-endpoint-tls'}
         yield {'req': 'RESOLVE', 'host': h, 'port': 0, 'entry': 'function'}
         yield {'req': 'RESOLVE_PTR', 'host': h, 'port': 0, 'entry': 'function'}
     # "only after the server selects it": any other answer to the greeting (another method, no acceptable method, another
